@@ -8,7 +8,7 @@ mkdir -p "$W/seeded" && cp -r "$SD"/. "$W/seeded/" && chmod +x "$W"/seeded/*.sh 
 DEMO="$W/seeded/demo.sh"
 run_demo() { if [ -x "$DEMO" ]; then (cd "$W" && timeout 900 "$DEMO" > "$W/demo.out" 2>&1); echo $?; else echo "nodemo"; fi; }
 R0=$(run_demo); echo "demo without change: exit $R0 ($(tail -1 $W/demo.out 2>/dev/null | cut -c1-120))"
-git -C "$W" apply "$SD/patch.diff" || { echo "PATCH DOES NOT APPLY"; git -C /repo worktree remove --force "$W"; exit 2; }
+{ git -C "$W" apply "$SD/patch.diff" 2>/dev/null || git -C "$W" apply -3 "$SD/patch.diff"; } || { echo "PATCH DOES NOT APPLY"; git -C /repo worktree remove --force "$W"; exit 2; }
 ST=$(/tmp/mut/run_stable.sh "$W" 2>&1 | tail -1); echo "stable tests with change: $ST"
 R1=$(run_demo); echo "demo with change: exit $R1 ($(tail -1 $W/demo.out 2>/dev/null | cut -c1-120))"
 git -C /repo worktree remove --force "$W"
